@@ -945,3 +945,8 @@ package tabular
 //@   requires [nested-cell-ok] c.mustCalc && dyn(c.raw) == type[Cell] ==> cellValOK(c.raw.(Cell))
 //@   assigns new(string)
 //@   ensures [lines-of-text] !c.mustCalc ==> len(result) == nlines(c.str) && forall i int :: {result[i]} 0 <= i && i < len(result) ==> result[i] == line(c.str, i)
+
+//@ -- package-level state (C16): every variable is assigned once, during package initialisation, and never written again
+//@ global ErrMissingPropertyHolder immutable -- an errors.New value, only returned
+//@ global LinkerSpecifiedVersion immutable -- set by the linker (-X), only read by Versions
+//@ global noProperty immutable -- pointer to the one emptyProperty (a field-less struct)
